@@ -15,7 +15,8 @@ for d in seeded/*/; do
   out=$(VERIF_HANG_SECS=${VERIF_HANG_SECS:-150} timeout 1500 ./vcheck check $p --tier quick 2>&1); rc=$?
   git -C $repo checkout -- .
   key=$(echo "$out" | grep -m1 "^violation" | sed 's/.*key=\([^ ]*\).*/\1/')
-  echo "$n $p exit=$rc $key"
+  exp=$(python3 -c "import json;print('expected-quiet' if json.load(open('$d/meta.json')).get('not_caught') else '')")
+  echo "$n $p exit=$rc $key $exp"
   find replays -name '*.json' -delete 2>/dev/null
 done
 rm -rf $VERIF_EVIDENCE_DIR
